@@ -24,7 +24,7 @@ ASSUMPTIONS = [
 ]
 GATES = {
     "arm_limited_by_distance": 1, "arm_limited_by_intensity": 1, "arm_limited_by_mask": 1, "arm_limited_by_image_side": 1,
-    "region_touching_nan_cost": 1, "interval_wider_than_the_image": 1, "support_region_of_256_pixels_or_more": 1, "fractional_disparity_with_masked_right_neighbour": 1, "right_volume_checked": 2,
+    "region_touching_nan_cost": 1, "aggregation_object_reused_after_an_in_place_update": 3, "interval_wider_than_the_image": 1, "support_region_of_256_pixels_or_more": 1, "fractional_disparity_with_masked_right_neighbour": 1, "right_volume_checked": 2,
     "plane_independence_checked": 3, "costs_compared": 20000,
 }
 
@@ -161,6 +161,38 @@ def run_case(case, ctx):
             ctx.gate("plane_independence_checked")
             if not gen.same(sub["cost_volume"].data, full):
                 ctx.violation("planes-not-independent", f"diffs {gen.first_diffs(full, sub['cost_volume'].data, 3)}", case, desc=desc)
+    # step-by-step use of the API: ONE aggregation object serves several calls (left->right, right->left, then the same
+    # dataset objects after an in-place update): each result must be the one a new object gives
+    if case["i"] % 3 == 1 and "b" in st:
+        agg = aggregation.AbstractAggregation(**cfg["pipeline"]["aggregation"])
+        seq = [("left_cv", lc, rc)] + ([("right_cv", rc, lc)] if validation else [("left_cv", lc, rc)])
+        for name, A_, B_ in seq:
+            cvx = gen.deep_copy_ds(st["b"][name])
+            agg.cost_volume_aggregation(A_, B_, cvx)
+            if not gen.same(cvx["cost_volume"].data, st["a"][name]["cost_volume"].data):
+                ctx.violation("reused-aggregation-object-differs", f"{name}: {gen.first_diffs(st['a'][name]['cost_volume'].data, cvx['cost_volume'].data, 3)} "
+                              "(a = new object in the pipeline, b = reused object)", case, situation="same-inputs", desc=desc)
+        # in-place update of the right dataset (samples and, when it has one, mask), then the whole pipeline again for the
+        # reference (new objects) and the reused object on the new volume
+        rng2 = ctx.rng("agg-update", case["part"], case["i"])
+        y0, x0 = int(rng2.integers(0, max(1, rows - 3))), int(rng2.integers(0, max(1, cols - 3)))
+        rc["im"].data[y0:y0 + 3, x0:x0 + 3] = np.float32(255.0) - rc["im"].data[y0:y0 + 3, x0:x0 + 3]
+        if "msk" in rc and dist > 1:
+            rc["msk"].data[(y0 + 4) % rows, :] = 1
+        st2 = {}
+        m2 = pipes.new_machine()
+        pipes.check(m2, pipe, lc, rc)
+        trace.Tracer(m2, on_before=lambda ev, mm: st2.__setitem__("b", trace.snapshot(mm, ("left_cv",))) if ev["kind"] == "aggregation" else None,
+                     on_after=lambda ev, mm: st2.__setitem__("a", trace.snapshot(mm, ("left_cv",))) if ev["kind"] == "aggregation" else None)
+        lc2, rc2 = gen.deep_copy_ds(lc), gen.deep_copy_ds(rc)
+        pandora.run(m2, lc2, rc2, pipes.checked_cfg(m2, pipe))
+        cvx = gen.deep_copy_ds(st2["b"]["left_cv"])
+        agg.cost_volume_aggregation(lc, rc, cvx)
+        ctx.gate("aggregation_object_reused_after_an_in_place_update")
+        if not gen.same(cvx["cost_volume"].data, st2["a"]["left_cv"]["cost_volume"].data):
+            ctx.violation("reused-aggregation-object-differs", f"{gen.first_diffs(st2['a']['left_cv']['cost_volume'].data, cvx['cost_volume'].data, 3)} "
+                          "(a = new object, b = object reused after the right dataset was updated in place)", case,
+                          situation="after-in-place-update", desc=desc)
     ctx.case([desc[k] for k in sorted(desc)], nontrivial=nontrivial)
     if ctx.evaluations <= 2:
         ctx.sample({"case": desc})
